@@ -1,4 +1,461 @@
-import RaptorModel.Model.Repart
+import RaptorModel.Lemmas.RepartLemmas
+import Mathlib.Algebra.BigOperators.Ring.Finset
+import Mathlib.Algebra.Field.Basic
+import Mathlib.Data.Fintype.Basic
+/-!
+# C20 — repartitioning (`repartition_matrix`, `make_contiguous`) and diagonal / row scaling
+
+Model: `Model/Repart.lean`. Helper lemmas: `Lemmas/RepartLemmas.lean`.
+
+Standing hypotheses (all decidable, defined in `Lemmas/RepartLemmas.lean`, namespace `Raptor.Repart`):
+
+* `WFInput ranks n` : the global ids of all rows of all ranks are a permutation of `List.range n`
+  (every row is owned exactly once) and every column id is `< n`;
+* `TgtOk tgt np n` : `tgt g < np` for every `g < n` (here `np = ranks.length`);
+* `ValidOrders tgt ranks orders` : for every rank `p`, `orders p` is a permutation of
+  `senders tgt ranks p` (each sender exactly once, in any order).
+
+Contents, in the order of the file:
+
+1. sorting (`sortLe_perm`, `sortLe_sorted`, uniqueness) and the independence of the arrival order:
+   `recvRows_order_independent`, `recvCols_order_independent`, `repartition_order_independent`;
+2. `reported_perm`, `rank_holds`;
+3. numbering: `newOf_eq_newIdAt`, `offNew_eq`;
+4. `repartition_entries` (main theorem), `repartition_dense`, `repartition_spmv`;
+5. validity of the halo map and of the package: `halo_valid`, `block_indices_valid`, `halo_owner`;
+6. scaling: `rowScales_spec`, `diagScaleRank_entries`, `diagScale_halo`, `rowScaleRank_entries`,
+   `unscale_solves`, `rowScale_equiv`;
+7. a concrete 2-rank / 4-row input evaluated by `decide`.
+-/
 namespace Raptor.C20
-theorem placeholder : (1:Nat) = 1 := rfl
+open Raptor.Sparse Raptor.Repart
+
+variable {K : Type}
+
+/-! ## 1. sorting and the independence of the arrival order -/
+
+theorem sortLe_perm {α : Type} (le : α → α → Bool) (l : List α) : (sortLe le l).Perm l :=
+  Repart.sortLe_perm le l
+
+theorem sortLe_sorted {α : Type} (le : α → α → Bool)
+    (total : ∀ a b, le a b = true ∨ le b a = true)
+    (trans : ∀ a b c, le a b = true → le b c = true → le a c = true) (l : List α) :
+    (sortLe le l).Pairwise (fun a b => le a b = true) :=
+  Repart.sortLe_sorted le total trans l
+
+/-- two lists that are permutations of each other, both sorted by a key with pairwise distinct
+    values, are equal -/
+theorem sorted_unique_of_distinct_keys {α : Type} (key : α → Nat) {l₁ l₂ : List α} (hp : l₁.Perm l₂)
+    (hk : (l₁.map key).Nodup)
+    (h₁ : l₁.Pairwise (fun a b => key a ≤ key b)) (h₂ : l₂.Pairwise (fun a b => key a ≤ key b)) :
+    l₁ = l₂ :=
+  sorted_by_key_unique key hp hk h₁ h₂
+
+/-- the rows a rank holds after the receive loop do not depend on the arrival order -/
+theorem recvRows_order_independent {tgt : Nat → Nat} {ranks : List (List (GRow K))} {n p : Nat}
+    {o₁ o₂ : List Nat} (h : WFInput ranks n)
+    (h₁ : o₁.Perm (senders tgt ranks p)) (h₂ : o₂.Perm (senders tgt ranks p)) :
+    recvRows tgt ranks p o₁ = recvRows tgt ranks p o₂ := by
+  rw [recvRows_spec h h₁, recvRows_spec h h₂]
+
+/-- the foreign column list of a rank does not depend on the arrival order (no well-formedness
+    needed: the pair of a column is a function of the column) -/
+theorem recvCols_order_independent {tgt : Nat → Nat} {ranks : List (List (GRow K))} {p : Nat}
+    {o₁ o₂ : List Nat}
+    (h₁ : o₁.Perm (senders tgt ranks p)) (h₂ : o₂.Perm (senders tgt ranks p)) :
+    recvCols tgt ranks p o₁ = recvCols tgt ranks p o₂ := by
+  rw [recvCols_spec h₁, recvCols_spec h₂]
+
+/-- **the any-source receive cannot influence the result** -/
+theorem repartition_order_independent {tgt : Nat → Nat} {ranks : List (List (GRow K))} {n : Nat}
+    {orders₁ orders₂ : Nat → List Nat} (h : WFInput ranks n)
+    (h₁ : ValidOrders tgt ranks orders₁) (h₂ : ValidOrders tgt ranks orders₂) :
+    repartition tgt ranks orders₁ = repartition tgt ranks orders₂ := by
+  unfold repartition
+  apply List.map_congr_left
+  intro p hp
+  have hp' := List.mem_range.mp hp
+  apply repartRank_congr
+  · exact heldIds_congr fun q hq => recvRows_order_independent h (h₁ q hq) (h₂ q hq)
+  · exact recvRows_order_independent h (h₁ p hp') (h₂ p hp')
+  · exact recvCols_order_independent (h₁ p hp') (h₂ p hp')
+
+/-! ## 2. the reported permutation; who holds what -/
+
+/-- the rows named to the caller form one permutation of the global ids -/
+theorem reported_perm {tgt : Nat → Nat} {ranks : List (List (GRow K))} {n : Nat}
+    {orders : Nat → List Nat} (h : WFInput ranks n) (ht : TgtOk tgt ranks.length n)
+    (ho : ValidOrders tgt ranks orders) :
+    (reported (repartition tgt ranks orders)).Perm (List.range n) :=
+  reported_perm_range h ht ho
+
+/-- rank `p` holds exactly the rows with `tgt g = p`, increasing -/
+theorem rank_holds {tgt : Nat → Nat} {ranks : List (List (GRow K))} {n : Nat}
+    {orders : Nat → List Nat} (h : WFInput ranks n) (ho : ValidOrders tgt ranks orders)
+    {p : Nat} (hp : p < ranks.length) :
+    (repartRank tgt ranks orders p).oldIds = (List.range n).filter (tgt · == p) :=
+  recvRows_ids h (ho p hp)
+
+/-- the first new id of a rank is the number of rows held below it -/
+theorem rank_first (tgt : Nat → Nat) (ranks : List (List (GRow K))) (orders : Nat → List Nat) (p : Nat) :
+    (repartRank tgt ranks orders p).first =
+      (((repartition tgt ranks orders).take p).map fun R => R.oldIds.length).sum := by
+  unfold repartition
+  rw [← List.map_take, List.map_map]
+  show firstOf (heldIds tgt ranks orders) p = _
+  unfold firstOf heldIds
+  rw [← List.map_take, List.map_map]
+  rfl
+
+/-! ## 3. numbering -/
+
+/-- the id `make_contiguous` fetches from the owner through the package is the position in the
+    reported permutation -/
+theorem newOf_eq_newIdAt {tgt : Nat → Nat} {ranks : List (List (GRow K))} {n : Nat}
+    {orders : Nat → List Nat} (h : WFInput ranks n) (ht : TgtOk tgt ranks.length n)
+    (ho : ValidOrders tgt ranks orders) {g : Nat} (hg : g < n) :
+    newOf (reported (repartition tgt ranks orders)) g =
+      newIdAt (heldIds tgt ranks orders) (tgt g) g :=
+  Repart.newOf_eq_newIdAt h ht ho hg
+
+/-- the halo map of every rank is the reported renumbering of its foreign columns -/
+theorem offNew_eq {tgt : Nat → Nat} {ranks : List (List (GRow K))} {n : Nat}
+    {orders : Nat → List Nat} (h : WFInput ranks n) (ht : TgtOk tgt ranks.length n)
+    (ho : ValidOrders tgt ranks orders) {p : Nat} (hp : p < ranks.length) :
+    (repartRank tgt ranks orders p).offNew =
+      (repartRank tgt ranks orders p).offOld.map fun c =>
+        newOf (reported (repartition tgt ranks orders)) c.1 := by
+  rw [repartRank_eq]
+  simp only
+  apply List.map_congr_left
+  intro c hc
+  obtain ⟨hc1, hc2, _⟩ := recvCols_mem_spec h ho hp hc
+  rw [Repart.newOf_eq_newIdAt h ht ho hc1, hc2]
+
+/-- new ids stay below `n`, and the renumbering is injective on the old ids -/
+theorem newOf_lt {tgt : Nat → Nat} {ranks : List (List (GRow K))} {n : Nat}
+    {orders : Nat → List Nat} (h : WFInput ranks n) (ht : TgtOk tgt ranks.length n)
+    (ho : ValidOrders tgt ranks orders) {g : Nat} (hg : g < n) :
+    newOf (reported (repartition tgt ranks orders)) g < n :=
+  Repart.newOf_lt (reported_perm h ht ho) hg
+
+theorem newOf_injective {tgt : Nat → Nat} {ranks : List (List (GRow K))} {n : Nat}
+    {orders : Nat → List Nat} (h : WFInput ranks n) (ht : TgtOk tgt ranks.length n)
+    (ho : ValidOrders tgt ranks orders) {a b : Nat} (ha : a < n) (hb : b < n)
+    (hab : newOf (reported (repartition tgt ranks orders)) a =
+      newOf (reported (repartition tgt ranks orders)) b) : a = b :=
+  newOf_inj (reported_perm h ht ho) a b ha hb hab
+
+/-- position `k` of the reported permutation is the old id whose new id is `k` -/
+theorem reported_getElem?_newOf {tgt : Nat → Nat} {ranks : List (List (GRow K))} {n : Nat}
+    {orders : Nat → List Nat} (h : WFInput ranks n) (ht : TgtOk tgt ranks.length n)
+    (ho : ValidOrders tgt ranks orders) {g : Nat} (hg : g < n) :
+    (reported (repartition tgt ranks orders))[newOf (reported (repartition tgt ranks orders)) g]? =
+      some g :=
+  getElem?_posOf ((reported_perm h ht ho).mem_iff.mpr (List.mem_range.mpr hg))
+
+/-! ## 4. the new matrix is the old one renumbered by the one reported permutation -/
+
+/-- **main theorem** -/
+theorem repartition_entries {tgt : Nat → Nat} {ranks : List (List (GRow K))} {n : Nat}
+    {orders : Nat → List Nat} (h : WFInput ranks n) (ht : TgtOk tgt ranks.length n)
+    (ho : ValidOrders tgt ranks orders) :
+    (outputEntries (repartition tgt ranks orders)).Perm
+      ((inputEntries ranks).map fun e =>
+        (newOf (reported (repartition tgt ranks orders)) e.1,
+         newOf (reported (repartition tgt ranks orders)) e.2.1, e.2.2)) :=
+  repartition_entries_perm h ht ho
+
+/-- dense form: entry `(i, j)` of the old operator is entry `(new i, new j)` of the new one -/
+theorem repartition_dense [AddCommMonoid K] {tgt : Nat → Nat} {ranks : List (List (GRow K))} {n : Nat}
+    {orders : Nat → List Nat} (h : WFInput ranks n) (ht : TgtOk tgt ranks.length n)
+    (ho : ValidOrders tgt ranks orders) {i j : Nat} (hi : i < n) (hj : j < n) :
+    denE (outputEntries (repartition tgt ranks orders))
+        (newOf (reported (repartition tgt ranks orders)) i)
+        (newOf (reported (repartition tgt ranks orders)) j) =
+      denE (inputEntries ranks) i j := by
+  rw [denE_perm (repartition_entries h ht ho)]
+  exact denE_map_renum _ _ n (newOf_inj (reported_perm h ht ho)) (inputEntries_lt h) hi hj
+
+/-- multiplying the permuted vector by the new matrix gives the permuted product -/
+theorem repartition_spmv [CommSemiring K] {tgt : Nat → Nat} {ranks : List (List (GRow K))} {n : Nat}
+    {orders : Nat → List Nat} (h : WFInput ranks n) (ht : TgtOk tgt ranks.length n)
+    (ho : ValidOrders tgt ranks orders) (x : List K) {i : Nat} (hi : i < n) :
+    Spmv.actE (outputEntries (repartition tgt ranks orders))
+        ((reported (repartition tgt ranks orders)).map fun g => x.getD g 0)
+        (newOf (reported (repartition tgt ranks orders)) i) =
+      Spmv.actE (inputEntries ranks) x i := by
+  rw [actE_perm (repartition_entries h ht ho)]
+  exact actE_map_renum _ _ n x _ (newOf_inj (reported_perm h ht ho)) (inputEntries_lt h)
+    (fun c hc => at'_permuted (reported_perm h ht ho) x hc) hi
+
+/-! ## 5. validity of the halo map and of the package built on it -/
+
+/-- the halo map of a rank is strictly increasing, below `n`, and disjoint from the rank's own
+    range `[first, first + oldIds.length)` -/
+theorem halo_valid {tgt : Nat → Nat} {ranks : List (List (GRow K))} {n : Nat}
+    {orders : Nat → List Nat} (h : WFInput ranks n) (ht : TgtOk tgt ranks.length n)
+    (ho : ValidOrders tgt ranks orders) {p : Nat} (hp : p < ranks.length) :
+    (repartRank tgt ranks orders p).offNew.Pairwise (· < ·) ∧
+    ∀ y ∈ (repartRank tgt ranks orders p).offNew,
+      y < n ∧ ¬ ((repartRank tgt ranks orders p).first ≤ y ∧
+        y < (repartRank tgt ranks orders p).first + (repartRank tgt ranks orders p).oldIds.length) :=
+  ⟨offNew_sorted h ht ho hp, offNew_range h ht ho hp⟩
+
+/-- the local indices stored in the two blocks are in range -/
+theorem block_indices_valid {tgt : Nat → Nat} {ranks : List (List (GRow K))} {n : Nat}
+    {orders : Nat → List Nat} (h : WFInput ranks n)
+    (ho : ValidOrders tgt ranks orders) {p : Nat} (hp : p < ranks.length) :
+    (∀ row ∈ (repartRank tgt ranks orders p).on, ∀ e ∈ row,
+      e.1 < (repartRank tgt ranks orders p).oldIds.length) ∧
+    (∀ row ∈ (repartRank tgt ranks orders p).off, ∀ e ∈ row,
+      e.1 < (repartRank tgt ranks orders p).offNew.length) :=
+  ⟨on_cols_lt tgt ranks orders p, off_cols_lt h ho hp⟩
+
+/-- the gathered first ids of the new partition form a valid `first_cols` array -/
+theorem newFc_valid (tgt : Nat → Nat) (ranks : List (List (GRow K))) (orders : Nat → List Nat) :
+    Comm.FcOk (newFc (heldIds tgt ranks orders)) ranks.length := by
+  have := newFc_ok (heldIds tgt ranks orders)
+  rwa [heldIds_length] at this
+
+/-- `newFc` is the gathered array of the ranks' `first`, closed by the total `n` -/
+theorem newFc_first {tgt : Nat → Nat} {ranks : List (List (GRow K))} {n : Nat}
+    {orders : Nat → List Nat} (h : WFInput ranks n) (ht : TgtOk tgt ranks.length n)
+    (ho : ValidOrders tgt ranks orders) :
+    (∀ p, p < ranks.length →
+      (newFc (heldIds tgt ranks orders)).getD p 0 = (repartRank tgt ranks orders p).first) ∧
+    (newFc (heldIds tgt ranks orders)).getD ranks.length 0 = n := by
+  constructor
+  · intro p hp
+    rw [newFc_getD _ (by rw [heldIds_length]; omega)]
+    rfl
+  · rw [newFc_getD _ (by rw [heldIds_length])]
+    exact firstOf_total h ht ho
+
+/-- with `fc` the prefix sums of the numbers of rows held, the owner of halo id `offNew[j]` under
+    the new contiguous partition is the owner `offOld[j].2` the package was built with -/
+theorem halo_owner {tgt : Nat → Nat} {ranks : List (List (GRow K))} {n : Nat}
+    {orders : Nat → List Nat} (h : WFInput ranks n) (ht : TgtOk tgt ranks.length n)
+    (ho : ValidOrders tgt ranks orders) {p : Nat} (hp : p < ranks.length) :
+    (repartRank tgt ranks orders p).offNew.map (Comm.owner (newFc (heldIds tgt ranks orders))) =
+      (repartRank tgt ranks orders p).offOld.map (·.2) :=
+  offNew_owner h ht ho hp
+
+/-- hence the standard forward exchange over the new halo maps delivers the specification -/
+theorem new_halo_exchange {α : Type} {tgt : Nat → Nat} {ranks : List (List (GRow K))} {n : Nat}
+    {orders : Nat → List Nat} (h : WFInput ranks n) (ht : TgtOk tgt ranks.length n)
+    (ho : ValidOrders tgt ranks orders) (d : α) (x : List (List α)) {p : Nat} (hp : p < ranks.length) :
+    Comm.exchange d (newFc (heldIds tgt ranks orders))
+        ((repartition tgt ranks orders).map (·.offNew)) x p =
+      Comm.haloSpec d (newFc (heldIds tgt ranks orders))
+        ((repartition tgt ranks orders).map (·.offNew)) x p := by
+  apply Comm.exchange_eq_spec_of_sorted
+  have e : ((repartition tgt ranks orders).map (·.offNew)).getD p [] =
+      (repartRank tgt ranks orders p).offNew := by
+    unfold repartition
+    rw [List.map_map, List.getD_eq_getElem?_getD, List.getElem?_map, List.getElem?_range hp]
+    rfl
+  rw [e]
+  apply Comm.owners_sorted (newFc_valid tgt ranks orders)
+  · exact (offNew_sorted h ht ho hp).imp (fun hab => Nat.le_of_lt hab)
+  · intro c hc
+    rw [← heldIds_length tgt ranks orders, newFc_getD _ (Nat.le_refl _), heldIds_length,
+      firstOf_total h ht ho]
+    exact (offNew_range h ht ho hp c hc).1
+
+/-! ## 6. scaling -/
+
+/-- if local row `i` of the on-process block has exactly one entry with column `i`, of value `a`,
+    the scale of the row is `sc a` -/
+theorem rowScales_spec [Zero K] (sc : K → K) (on : List (List (Nat × K))) (i : Nat)
+    (row : List (Nat × K)) (a : K) (hrow : on[i]? = some row) (hmem : (i, a) ∈ row)
+    (huniq : ∀ e ∈ row, e.1 = i → e = (i, a)) :
+    (rowScales sc on).getD i 0 = sc a :=
+  Repart.rowScales_spec sc on i row a hrow hmem huniq
+
+/-- `diagonally_scale`, one rank, global reading: entry `(i, j, v)` becomes `(i, j, v * (d i * d j))`
+    for any `d` that reads the rank's scales on its own range and the delivered halo scales on the
+    halo ids -/
+theorem diagScaleRank_entries [Zero K] [Mul K] (sc : K → K) (B : Blk K) (halo : List K)
+    (first : Nat) (offMap : List Nat) (d : Nat → K)
+    (hon : ∀ i, i < B.on.length → d (first + i) = (rowScales sc B.on).getD i 0)
+    (hoff : ∀ k, k < offMap.length → d (offMap.getD k 0) = halo.getD k 0)
+    (hlen : B.off.length ≤ B.on.length)
+    (hcol : ∀ row ∈ B.on, ∀ e ∈ row, e.1 < B.on.length)
+    (hpos : ∀ row ∈ B.off, ∀ e ∈ row, e.1 < offMap.length) :
+    ((diagScaleRank sc B halo).1.entries first offMap).Perm
+      ((B.entries first offMap).map fun e => (e.1, e.2.1, e.2.2 * (d e.1 * d e.2.1))) :=
+  Repart.diagScaleRank_entries sc B halo first offMap d hon hoff hlen hcol hpos
+
+/-- such a `d` exists as soon as the halo ids are distinct and outside the rank's own range -/
+theorem diagScaleRank_entries_scaleFn [Zero K] [Mul K] (sc : K → K) (B : Blk K) (halo : List K)
+    (first : Nat) (offMap : List Nat)
+    (hn : offMap.Nodup) (hout : ∀ g ∈ offMap, ¬ (first ≤ g ∧ g < first + B.on.length))
+    (hlen : B.off.length ≤ B.on.length)
+    (hcol : ∀ row ∈ B.on, ∀ e ∈ row, e.1 < B.on.length)
+    (hpos : ∀ row ∈ B.off, ∀ e ∈ row, e.1 < offMap.length) :
+    ((diagScaleRank sc B halo).1.entries first offMap).Perm
+      ((B.entries first offMap).map fun e => (e.1, e.2.1, e.2.2 *
+        (scaleFn first (rowScales sc B.on) offMap halo e.1 *
+         scaleFn first (rowScales sc B.on) offMap halo e.2.1))) := by
+  apply Repart.diagScaleRank_entries sc B halo first offMap _ _ _ hlen hcol hpos
+  · intro i hi
+    exact scaleFn_on first _ offMap halo (by rw [rowScales_length]; exact hi)
+  · intro k hk
+    exact scaleFn_off first _ offMap halo hn (by rw [rowScales_length]; exact hout) hk
+
+/-- per-block form of `diagonally_scale` (rows keep their multiset of columns: `moveFront_perm`) -/
+theorem diagScaleRank_blocks [Zero K] [Mul K] (sc : K → K) (B : Blk K) (halo : List K) (i : Nat) :
+    (diagScaleRank sc B halo).1.on[i]? = B.on[i]?.map (fun row =>
+      (moveFront i row).map fun e =>
+        (e.1, e.2 * ((rowScales sc B.on).getD i 0 * (rowScales sc B.on).getD e.1 0))) ∧
+    (diagScaleRank sc B halo).1.off[i]? = B.off[i]?.map (fun row =>
+      row.map fun e => (e.1, e.2 * ((rowScales sc B.on).getD i 0 * halo.getD e.1 0))) ∧
+    (diagScaleRank sc B halo).1.rhs[i]? = B.rhs[i]?.map (fun b => b * (rowScales sc B.on).getD i 0) ∧
+    (diagScaleRank sc B halo).2 = rowScales sc B.on :=
+  ⟨diagScaleRank_on sc B halo i, diagScaleRank_off sc B halo i, diagScaleRank_rhs sc B halo i, rfl⟩
+
+/-- in `diagScale`, the halo scales rank `r` uses are the owners' scales (C03) -/
+theorem diagScale_halo [Zero K] (sc : K → K) (fc : List Nat) (np : Nat) (offMaps : List (List Nat))
+    (blks : List (Blk K)) (r : Nat) (hfc : Comm.FcOk fc np)
+    (hs : (offMaps.getD r []).Pairwise (· ≤ ·)) (hb : ∀ c ∈ offMaps.getD r [], c < fc.getD np 0) :
+    Comm.exchange 0 fc offMaps (blks.map fun B => rowScales sc B.on) r =
+      Comm.haloSpec 0 fc offMaps (blks.map fun B => rowScales sc B.on) r :=
+  Repart.diagScale_halo sc fc np offMaps blks r hfc hs hb
+
+/-- rank `r` of `diagScale` is `diagScaleRank` fed with the owners' scales -/
+theorem diagScale_rank [Zero K] [Mul K] (sc : K → K) (fc : List Nat) (np : Nat)
+    (offMaps : List (List Nat)) (blks : List (Blk K)) (r : Nat) (hfc : Comm.FcOk fc np)
+    (hs : (offMaps.getD r []).Pairwise (· ≤ ·)) (hb : ∀ c ∈ offMaps.getD r [], c < fc.getD np 0) :
+    (diagScale sc fc offMaps blks)[r]? = blks[r]?.map fun B =>
+      diagScaleRank sc B (Comm.haloSpec 0 fc offMaps (blks.map fun B => rowScales sc B.on) r) :=
+  diagScale_getElem? sc fc np offMaps blks r hfc hs hb
+
+/-- `row_scale`, one rank, global reading: every entry `(i, j, v)` of either block becomes
+    `(i, j, v * s[i])` -/
+theorem rowScaleRank_entries [Zero K] [Mul K] (sc : K → K) (B : Blk K) (first : Nat) (offMap : List Nat) :
+    ((rowScaleRank sc B).entries first offMap).Perm
+      ((B.entries first offMap).map fun e =>
+        (e.1, e.2.1, e.2.2 * (rowScales sc B.on).getD (e.1 - first) 0)) :=
+  Repart.rowScaleRank_entries sc B first offMap
+
+/-- per-block form of `row_scale`, with the right-hand side -/
+theorem rowScaleRank_blocks [Zero K] [Mul K] (sc : K → K) (B : Blk K) (i : Nat) :
+    (rowScaleRank sc B).on[i]? = B.on[i]?.map (fun row =>
+      (moveFront i row).map fun e => (e.1, e.2 * (rowScales sc B.on).getD i 0)) ∧
+    (rowScaleRank sc B).off[i]? = B.off[i]?.map (fun row =>
+      row.map fun e => (e.1, e.2 * (rowScales sc B.on).getD i 0)) ∧
+    (rowScaleRank sc B).rhs[i]? = B.rhs[i]?.map (fun b => b * (rowScales sc B.on).getD i 0) :=
+  ⟨rowScaleRank_on sc B i, rowScaleRank_off sc B i, rowScaleRank_rhs sc B i⟩
+
+/-- `diagonally_unscale` multiplies slot by slot -/
+theorem unscale_getElem [Mul K] (sol scales : List K) (i : Nat) (h1 : i < sol.length) (h2 : i < scales.length) :
+    (unscale sol scales)[i]'(by simp [unscale]; omega) = sol[i] * scales[i] :=
+  Repart.unscale_getElem sol scales i h1 h2
+
+section Algebra
+variable {R : Type} [CommRing R] [IsDomain R] {n : Nat}
+
+/-- the unscaled vector solves the original system: if `y` solves `(D A D) y = D b` with `D`
+    invertible, then `D y` solves `A x = b` -/
+theorem unscale_solves (a : Fin n → Fin n → R) (d b y : Fin n → R) (hd : ∀ i, d i ≠ 0)
+    (hs : ∀ i, ∑ j, (d i * a i j * d j) * y j = d i * b i) :
+    ∀ i, ∑ j, a i j * (d j * y j) = b i := by
+  intro i
+  have h1 : ∑ j, (d i * a i j * d j) * y j = d i * ∑ j, a i j * (d j * y j) := by
+    rw [Finset.mul_sum]
+    apply Finset.sum_congr rfl
+    intro j _
+    ring
+  have h2 := hs i
+  rw [h1] at h2
+  exact mul_left_cancel₀ (hd i) h2
+
+omit [IsDomain R] in
+/-- conversely the scaled system is solved by the scaled-back solution -/
+theorem scale_solves (a : Fin n → Fin n → R) (d b x y : Fin n → R)
+    (hx : ∀ j, x j = d j * y j) (hs : ∀ i, ∑ j, a i j * x j = b i) :
+    ∀ i, ∑ j, (d i * a i j * d j) * y j = d i * b i := by
+  intro i
+  rw [← hs i, Finset.mul_sum]
+  apply Finset.sum_congr rfl
+  intro j _
+  rw [hx j]; ring
+
+/-- `row_scale` does not change the solution set -/
+theorem rowScale_equiv (a : Fin n → Fin n → R) (d b x : Fin n → R) (hd : ∀ i, d i ≠ 0) :
+    (∀ i, ∑ j, (d i * a i j) * x j = d i * b i) ↔ (∀ i, ∑ j, a i j * x j = b i) := by
+  have h1 : ∀ i, ∑ j, (d i * a i j) * x j = d i * ∑ j, a i j * x j := by
+    intro i
+    rw [Finset.mul_sum]
+    apply Finset.sum_congr rfl
+    intro j _
+    ring
+  constructor
+  · intro h i
+    have h2 := h i
+    rw [h1] at h2
+    exact mul_left_cancel₀ (hd i) h2
+  · intro h i
+    rw [h1, h i]
+
+end Algebra
+
+/-- the algebra applies in particular over any field -/
+example {F : Type} [Field F] {n : Nat} (a : Fin n → Fin n → F) (d b y : Fin n → F) (hd : ∀ i, d i ≠ 0)
+    (hs : ∀ i, ∑ j, (d i * a i j * d j) * y j = d i * b i) :
+    ∀ i, ∑ j, a i j * (d j * y j) = b i :=
+  unscale_solves a d b y hd hs
+
+/-! ## 7. a concrete input: 2 ranks, 4 rows -/
+section Example
+
+/-- rank 0 owns rows 0, 1; rank 1 owns rows 2, 3 -/
+def ranksEx : List (List (GRow Int)) :=
+  [[(0, [(0, 2), (1, -1), (2, -1)]), (1, [(0, -1), (1, 2), (3, -1)])],
+   [(2, [(2, 2), (0, -1), (3, -1)]), (3, [(3, 2), (1, -1), (2, -1)])]]
+
+/-- round robin -/
+def tgtA (g : Nat) : Nat := g % 2
+/-- everything to rank 1 -/
+def tgtB (_ : Nat) : Nat := 1
+
+def oA₁ (_ : Nat) : List Nat := [0, 1]
+def oA₂ (_ : Nat) : List Nat := [1, 0]
+def oB₁ (p : Nat) : List Nat := if p = 1 then [0, 1] else []
+def oB₂ (p : Nat) : List Nat := if p = 1 then [1, 0] else []
+
+example : WFInput ranksEx 4 := by decide
+example : TgtOk tgtA ranksEx.length 4 := by decide
+example : TgtOk tgtB ranksEx.length 4 := by decide
+example : ValidOrders tgtA ranksEx oA₁ := by decide
+example : ValidOrders tgtA ranksEx oA₂ := by decide
+example : ValidOrders tgtB ranksEx oB₁ := by decide
+example : ValidOrders tgtB ranksEx oB₂ := by decide
+
+example : reported (repartition tgtA ranksEx oA₁) = [0, 2, 1, 3] := by decide
+example : reported (repartition tgtB ranksEx oB₁) = [0, 1, 2, 3] := by decide
+
+example : outputEntries (repartition tgtA ranksEx oA₁) =
+    [(0, 0, 2), (0, 1, -1), (1, 1, 2), (1, 0, -1), (0, 2, -1), (1, 3, -1),
+     (2, 2, 2), (2, 3, -1), (3, 3, 2), (3, 2, -1), (2, 0, -1), (3, 1, -1)] := by decide
+
+example : outputEntries (repartition tgtB ranksEx oB₁) =
+    [(0, 0, 2), (0, 1, -1), (0, 2, -1), (1, 1, 2), (1, 0, -1), (1, 3, -1),
+     (2, 2, 2), (2, 0, -1), (2, 3, -1), (3, 3, 2), (3, 1, -1), (3, 2, -1)] := by decide
+
+/-- the messages arrive in a different order, the rows are received in a different order … -/
+example : (oA₁ 0).flatMap (fun r => (msgRows tgtA (ranksEx.getD r []) 0).map (·.1)) = [0, 2] ∧
+    (oA₂ 0).flatMap (fun r => (msgRows tgtA (ranksEx.getD r []) 0).map (·.1)) = [2, 0] := by decide
+
+/-- … and the result is the same -/
+example : repartition tgtA ranksEx oA₁ = repartition tgtA ranksEx oA₂ := by decide
+example : repartition tgtB ranksEx oB₁ = repartition tgtB ranksEx oB₂ := by decide
+
+/-- the same, from the general theorem -/
+example : repartition tgtA ranksEx oA₁ = repartition tgtA ranksEx oA₂ :=
+  repartition_order_independent (n := 4) (by decide) (by decide) (by decide)
+
+end Example
+
 end Raptor.C20
